@@ -546,7 +546,11 @@ def _convert_parameter(parameter: SignatureParameter, parent: Module | Class) ->
         None if parameter.annotation is _empty else _convert_object_to_annotation(parameter.annotation, parent=parent)
     )
     kind = _kind_map[parameter.kind]
-    if parameter.default is _empty:
+    if parameter.kind is SignatureParameter.VAR_POSITIONAL:
+        default = "()"
+    elif parameter.kind is SignatureParameter.VAR_KEYWORD:
+        default = "{}"
+    elif parameter.default is _empty:
         default = None
     elif hasattr(parameter.default, "__name__"):
         # Avoid `repr` containing chevrons and memory addresses.
